@@ -9,8 +9,12 @@
      py_remove_special_chars  <->  _remove_special_chars: re.sub(r"[^a-zA-Z0-9\s]", "", s), character by character
      py_normalize_whitespace  <->  _normalize_whitespace: re.sub(r"\s+", " ", s).strip()
      py_apply / py_clean      <->  _apply_operation / the loop in TextCleaningFeatureGroup.calculate_feature
-   remove_stopwords (NLTK corpus; the identity when NLTK is not installed) and remove_urls (general regex) are not
-   modelled.  `re_space` is what `\s` matches for a str pattern restricted to ASCII: [ \t\n\r\f\v] and \x1c-\x1f. *)
+     sub_del / url_at / email_at / py_remove_urls  <->  _remove_urls (lines 227-250):
+                                   cleaned = re.sub(r"https?://\S+|www\.\S+", "", s); cleaned = re.sub(r"\S+@\S+\.\S+", "", cleaned)
+                                   (see the comment at the definitions for the regular-expression semantics assumed)
+     alt_remove_urls          <->  NOT in the code: the one-pass variant re.sub(r"https?://\S+|www\.\S+|\S+@\S+\.\S+", "", s)
+                                   (kept to state that it is a different function, C19_remove_urls_single_pass_refuted)
+   remove_stopwords (NLTK corpus; the identity when NLTK is not installed) is not modelled.  `re_space` is what `\s` matches for a str pattern restricted to ASCII: [ \t\n\r\f\v] and \x1c-\x1f. *)
 From Coq Require Import List Bool Arith Ascii String.
 Import ListNotations.
 Require Import MV.Spec.Builtins.
@@ -55,12 +59,50 @@ Definition rstrip (s : text) : text := rev (lstrip (rev s)).
 Definition strip (s : text) : text := rstrip (lstrip s).
 Definition py_normalize_whitespace (s : text) : text := strip (collapse false s).
 
+(* ---- remove_urls: re.sub(pattern, "", s) for the two patterns  https?://\S+|www\.\S+   and   \S+@\S+\.\S+
+   Semantics of re.sub assumed (Python `re`, backtracking, and RE2 / leftmost-first alike): scan from the left; at
+   position i try to match the pattern at i; on success delete the match and continue at its END (matches do not
+   overlap; neither pattern can match the empty string); otherwise keep the character and go to i + 1.
+   `\S` = not `\s`; `sp` is the `\s` class (re_space for Python `re` on ASCII text, re2_space for RE2).
+   Facts about these two patterns that the automaton uses (regular-expression reasoning, not proved here, covered by the tie):
+     * both patterns END in a greedy `\S+` with nothing after it, and every alternative starts with a non-`\s` character,
+       so a match starting at i always extends to the end of the maximal `\S` run containing i   (skip = true:
+       "inside a match, delete up to the next `\s` character"), and no match starts at a `\s` character;
+     * url_at: `https?://\S+` matches at s iff s starts with "http://" or "https://" followed by a `\S` character (the
+       optional `s` needs no search: position 4 is `s` or `:`); `www\.\S+` iff s starts with "www." followed by `\S`;
+     * email_at: `\S+@\S+\.\S+` matches at s iff the `\S` run r at the head of s can be split r = x @ y . z with x, y, z
+       non-empty (backtracking over the greedy `\S+` finds a split iff one exists; `@` and `.` are `\S` characters). *)
+Definition next_nonsp (sp : ascii -> bool) (o : option text) : bool :=
+  match o with Some (c :: _) => negb (sp c) | _ => false end.
+Definition url_at (sp : ascii -> bool) (s : text) : bool :=
+  next_nonsp sp (strip_prefix (lit "http://") s) || next_nonsp sp (strip_prefix (lit "https://") s)
+  || next_nonsp sp (strip_prefix (lit "www.") s).
+Fixpoint take_run (sp : ascii -> bool) (s : text) : text :=
+  match s with [] => [] | a :: t => if sp a then [] else a :: take_run sp t end.
+Definition email_at (sp : ascii -> bool) (s : text) : bool := is_email (take_run sp s).
+(* re.sub(<pattern whose match-at-position test is m>, "", s) *)
+Fixpoint sub_del (sp : ascii -> bool) (m : text -> bool) (skip : bool) (s : text) : text :=
+  match s with
+  | [] => []
+  | a :: t => if sp a then a :: sub_del sp m false t
+              else if skip then sub_del sp m true t
+              else if m s then sub_del sp m true t else a :: sub_del sp m false t
+  end.
+Definition url_pass (sp : ascii -> bool) (s : text) : text := sub_del sp (url_at sp) false s.
+Definition email_pass (sp : ascii -> bool) (s : text) : text := sub_del sp (email_at sp) false s.
+Definition two_pass (sp : ascii -> bool) (s : text) : text := email_pass sp (url_pass sp s).
+Definition py_remove_urls (s : text) : text := two_pass re_space s.
+(* the single alternation: at every position the URL alternatives are tried first, then the e-mail alternative *)
+Definition alt_remove_urls (sp : ascii -> bool) (s : text) : text :=
+  sub_del sp (fun x => url_at sp x || email_at sp x) false s.
+
 Definition py_apply (o : cleanop) (s : text) : text :=
   match o with
   | CNormalize => py_normalize s
   | CPunct => py_remove_punctuation s
   | CSpecial => py_remove_special_chars s
   | CWhite => py_normalize_whitespace s
+  | CUrls => py_remove_urls s
   end.
 (* result = source; for operation in operations: result = _apply_operation(result) *)
 Definition py_clean (ops : list cleanop) (x : option text) : text :=
